@@ -1,10 +1,11 @@
 CONSTANTS
-  Contracts = {"timelock", "multisig", "oraclelock", "refundlock", "voting", "inc", "sum", "erc20", "testcases"}
+  Contracts = {"timelock", "multisig", "oraclelock", "refundlock", "voting", "inc", "sum", "erc20", "testcases", "sft"}
   ArgClasses = {"valid", "valid2", "over", "missing", "garbage", "short"}
   AmtClasses = {"zero", "low", "some", "big"}
   GasClasses = {"zero", "small", "exact", "enough"}
   Roles = {"owner", "other", "voter"}
   MaxDev = 2
+  Deep = FALSE
   WalkLen = 24
   ExportOn = TRUE
 INIT Init
